@@ -248,6 +248,8 @@ pub fn scenarios(thorough: bool) -> Vec<SubsScenario> {
 		// subscription may stay open, afterwards the sink must report closed and sends must fail
 		SubsScenario { name: String::from("stop-with-call-in-flight"), conns: vec![vec![Subscribe(0), SlowCall]], scripts: vec![vec![Accept, Send, IsClosed, Send, IsClosed, Send]], stop: true, mask: mask_harness_only, buffer: 16, max_subs: 16, max_resp: 0 },
 		SubsScenario { name: String::from("stop-with-call-in-flight-two-conns"), conns: vec![vec![Subscribe(0)], vec![SlowCall]], scripts: vec![vec![Accept, Send, IsClosed, Send, IsClosed]], stop: true, mask: mask_harness_only, buffer: 16, max_subs: 16, max_resp: 0 },
+		// the peer stops reading, a notification larger than the socket buffer stalls the connection's writer, then the server is stopped
+		SubsScenario { name: String::from("stop-with-stalled-writer"), conns: vec![vec![Subscribe(0), StopReading]], scripts: vec![vec![Accept, SendBig, Send, IsClosed, Send, IsClosed]], stop: true, mask: mask_harness_only, buffer: 2, max_subs: 16, max_resp: 0 },
 		// string subscription ids (id provider): the id travels as a JSON string in responses, notifications and unsubscribe params
 		SubsScenario { name: String::from("string-ids:unsubscribe-vs-sends"), conns: vec![vec![Subscribe(0), Unsub(0)]], scripts: vec![vec![Accept, Send, IsClosed, Send, ReturnErr]], stop: false, mask: mask_harness_only, buffer: 16, max_subs: 16, max_resp: 0 },
 		SubsScenario { name: String::from("string-ids:two-subs-foreign-unsub"), conns: vec![vec![Subscribe(0), UnsubForeign(1, 0)], vec![Subscribe(1)]], scripts: vec![vec![Accept, Send, IsClosed], vec![Accept, Send, IsClosed, Send]], stop: false, mask: mask_harness_only, buffer: 16, max_subs: 16, max_resp: 0 },
